@@ -17,6 +17,7 @@ import (
 	"verifharness/internal/ev"
 	"verifharness/internal/genlab"
 	"verifharness/internal/jsonv"
+	"verifharness/internal/xspecs"
 	"verifharness/servlab"
 )
 
@@ -136,6 +137,24 @@ func Main(args []string) int {
 			}
 			info[key] = pk
 		}
+	}
+	for _, name := range xspecs.Names() {
+		if only != "" && !strings.HasPrefix(only, name+"|") {
+			continue
+		}
+		n++
+		key := fmt.Sprintf("p%04d", n)
+		it := genlab.Item{ID: name, Text: string(xspecs.All()[name]), Name: "spec", Features: []string{"paths/client", "paths/server"}, Convenient: "off"}
+		j, err := e3.JobFromItem(key, it)
+		if err != nil {
+			continue
+		}
+		jobs = append(jobs, j)
+		pk := servlab.C01Pkg{Key: key, Origin: name, Values: r.N(30, 120), Config: "default"}
+		if tree, err := doctree.Load(j.Spec); err == nil {
+			pk.Responses = ResponseKeys(tree)
+		}
+		info[key] = pk
 	}
 	// parameter matrix (observed admission), packed into documents of 90 operations
 	if only == "" || strings.HasPrefix(only, "matrix/") {
